@@ -24,7 +24,7 @@ def expected_groups(xs, keyf):
 class C04(Check):
     ID = 'C04'
     LEVEL = 'exploration'
-    BUDGET = {'quick': 30, 'thorough': 300}
+    BUDGET = {'quick': 30, 'thorough': 240}
     RULE = ('case = (key mapper, stream, parent context, inner pipeline). Key mappers return values that are equal but not identical objects: 1-tuples built per item, '
             'ints > 2^40 computed at run time, float(i%k), strings built with %, and int for even / float for odd items (1 == 1.0: same group), and DIFFERENT keys whose hashes collide (-1 / -2, multiples of 2**61-1, tuples of those); 1..200 distinct keys; '
             '0..400 items; group_by at top level, nested in group_by, in roll (key slots reused by successive windows: w != s and w == s), in split, group_by>roll; inner pipeline '
@@ -37,7 +37,7 @@ class C04(Check):
     REQUIRED_OBSERVED = ['child_lifetimes_checked', 'parent_lifetimes_checked', 'groups_flushed_at_completion']
 
     def generate(self, rng, tier, shard, nshards):
-        k = 2600 if tier == 'quick' else 25000
+        k = 2600 if tier == 'quick' else 10 ** 7
         names = ['top', 'group', 'roll', 'roll_eq', 'split', 'group>roll', 'roll>group', 'top']
         for j in range(k):
             name = names[j % len(names)]
